@@ -7,7 +7,7 @@
    unsynced writes dropped and kept) must all equal NewStorage on some allowed prefix of whole batches.
    Histories contain restarts and crashes at arbitrary positions with arbitrary cuts, so "every prefix of every
    history, every cut, every continuation" is one universally quantified op list. *)
-From Shisui Require Import Base.Bytes Gen.K_storage Model.Storage Proofs.Storage.
+From Shisui Require Import Base.Bytes Gen.K_storage Model.Storage Model.StorageConc Proofs.Storage Proofs.StorageConc.
 
 (* reopening always succeeds; every item held afterwards (and in every further crash image) was put under that id;
    the persisted usage figure is not below the bytes present (DInv/Inv, see C17_inv_meaning) *)
@@ -48,6 +48,29 @@ Theorem C17_radius_after_open : forall (V : Type) (vlen : V -> N) (vhead8 : V ->
   good dec -> DInv vlen Q d -> length nd = 32%nat -> open vlen vhead8 dec cm pp nd d = Ok (s', bs) -> RInv dec s'.
 Proof. exact @open_rinv. Qed.
 Print Assumptions C17_radius_after_open.
+
+(* "the persisted usage figure is not below the bytes actually present" while several goroutines write: over the
+   small-step machine of Model/StorageConc.v with Put holding its lock across the prune (the code as it is), after every
+   schedule, whenever nobody is inside Put, the record on disk is the counter and covers the bytes held *)
+Theorem C17_conc_record_covers_bytes : forall (V : Type) (vlen : V -> N) (vhead8 : V -> res N) (dec : bytes -> N) Q
+    (y0 : sys (V:=V)) work sched,
+  SInv vlen Q y0 -> Forall (fun p => valid_id (node (mem y0)) (fst p)) (concat work) ->
+  let c := exec vlen dec true false (start (mem y0) work) sched in
+  lock c = None ->
+  held vlen (sh c) <= cnt (sh c) /\
+  (rec (sdb (sh c)) = None /\ cnt (sh c) = 0 \/ rec (sdb (sh c)) = Some (SizeRec (cnt (sh c)))).
+Proof. exact @conc_record_covers_bytes. Qed.
+Print Assumptions C17_conc_record_covers_bytes.
+
+(* with the prune outside the writers' lock a put can land between the prune's counter load and its counter store:
+   the counter and every later size record - also after a restart - miss that item *)
+Theorem C17_conc_put_during_prune_refuted :
+  let c := exec nv_len le_to_N false false (start pdp_s0 pdp_work) pdp_sched in
+  quiescent c = true /\
+  match rec (sdb (sh c)) with Some (SizeRec n) => n <? held nv_len (sh c) = true | _ => False end /\
+  cnt (sh c) <? held nv_len (sh c) = true.
+Proof. exact put_during_prune_refuted. Qed.
+Print Assumptions C17_conc_put_during_prune_refuted.
 
 (* the repaired corner: an emptied, over-counted store reopens with the maximum radius *)
 Theorem C17_emptied_store_reopens_open :
